@@ -7,6 +7,7 @@ import (
 	"sync/atomic"
 	"testing"
 	"testing/synctest"
+	"time"
 )
 
 // Outcome is what a harness body reports for one execution.
@@ -121,7 +122,7 @@ func Explore(t *testing.T, opts Options, body Body) *Stats {
 		opts.Workers = 1
 		var frontier [][]Choice
 		frontier = append(frontier, nil)
-		for len(frontier) > 0 && len(frontier) < 8*shardN {
+		for len(frontier) > 0 && len(frontier) < 8*shardN && (opts.Deadline.IsZero() || time.Now().Before(opts.Deadline)) {
 			prefix := frontier[0]
 			frontier = frontier[1:]
 			res := runOne(t, opts, prefix, body, false)
@@ -250,7 +251,7 @@ func Explore(t *testing.T, opts Options, body Body) *Stats {
 				}
 				vioSeen[v.Key]++
 			}
-			if opts.MaxExecs > 0 && st.Executions >= opts.MaxExecs {
+			if (opts.MaxExecs > 0 && st.Executions >= opts.MaxExecs) || (!opts.Deadline.IsZero() && time.Now().After(opts.Deadline)) {
 				if len(children) > 0 || len(stack) > 0 {
 					st.Capped = true
 				}
